@@ -433,6 +433,25 @@ func pickValue(r *rand.Rand, tag int) []byte {
 	}
 }
 
+// closeWatched calls Close under a watchdog: a Close that does not return is reported with the goroutine stacks
+func closeWatched(closer interface{ Close() }, what string) {
+	done := make(chan struct{})
+	var panicked any
+	go func() {
+		defer close(done)
+		defer func() { panicked = recover() }()
+		closer.Close()
+	}()
+	select {
+	case <-done:
+		if panicked != nil {
+			panic(panicked)
+		}
+	case <-time.After(60 * time.Second):
+		panic("HANG: Close did not return within 60 s (" + what + ")\n" + allStacks())
+	}
+}
+
 func allStacks() string {
 	buf := make([]byte, 1<<16)
 	n := runtime.Stack(buf, true)
